@@ -20,6 +20,30 @@ type PropSpec struct {
 	Explanation    string
 	NotDecided     string
 	Assumptions    []string
+	// OutOfDomain: obligation-key prefixes of shared rules that say nothing about this property, with the reason
+	// (e.g. a clause about typed Go values for a property whose inputs are decoded JSON documents). An undischarged
+	// obligation with such a key is recorded as discharged "outside the property's domain" instead of failing.
+	OutOfDomain map[string]string
+}
+
+// ApplyDomain marks the obligations that lie outside the property's stated domain.
+func ApplyDomain(spec PropSpec, r *core.Report) {
+	if len(spec.OutOfDomain) == 0 {
+		return
+	}
+	for i := range r.Obls {
+		o := &r.Obls[i]
+		if o.Status == core.Discharged {
+			continue
+		}
+		for pre, why := range spec.OutOfDomain {
+			if strings.HasPrefix(o.Key, pre) {
+				o.Status = core.Discharged
+				o.By = "outside this property's domain (" + why + "); the clause is decided where it applies — " + o.Detail
+				o.Detail = ""
+			}
+		}
+	}
 }
 
 var Properties = map[string]PropSpec{}
@@ -96,6 +120,7 @@ func Controls(id, repo, verif, tier string, r *core.Report) {
 				rl(p, sub)
 			}
 		}()
+		ApplyDomain(spec, sub)
 		hit := ""
 		for k := range violatedKeys(sub.Obls) {
 			if strings.HasPrefix(k, c.Expect) && !base[k] {
